@@ -41,6 +41,8 @@ def check(ctx):
                          ("produce_predefined_block", f"{PORTS}::BlockProducer::produce_predefined_block")):
         with ctx.clause(f"1.{fn}"):
             b = ctx.body_with(f"{MT}::{fn}", COMMIT)
+            fu = F.unit(f"{MT}::{fn}")
+            P_HEIGHT, P_TIME = (ctx.pspec(fu, 2), ctx.pspec(fu, 3)) if fn == "produce_block" else (None, None)   # (&mut self, height, block_time, ..)
             prod = ctx.one_call(b, producer)
             seal = ctx.one_call(b, SEAL)
             commit = ctx.one_call(b, COMMIT)
@@ -48,12 +50,12 @@ def check(ctx):
             ctx.guarded(f"1.{fn}-signer-available", b, [prod], avail, truth=True, detail="no production without a signing key")
             ctx.test_leads_to_error(f"1.{fn}-no-signer-rejects", b, avail, truth=False)
             if fn == "produce_block":
-                mono = ctx.cmp_tests(b, "Gt", lhs=f"field:{MT}.last_timestamp", rhs=["local:block_time", "upvar:block_time"])
+                mono = ctx.cmp_tests(b, "Gt", lhs=f"field:{MT}.last_timestamp", rhs=P_TIME)
                 ctx.guarded("1.produce_block-time-monotone", b, [prod, commit], mono, truth=False,
                             detail="a block older than the last one is never produced or committed")
                 ctx.test_leads_to_error("1.produce_block-time-regress-rejects", b, mono, truth=True)
-                ctx.arg_origin("1.produce_block-height-passed", prod, 1, ["local:height", "upvar:height"])
-                ctx.arg_origin("1.produce_block-time-passed", prod, 2, ["local:block_time", "upvar:block_time"])
+                ctx.arg_origin("1.produce_block-height-passed", prod, 1, P_HEIGHT)
+                ctx.arg_origin("1.produce_block-time-passed", prod, 2, P_TIME)
             ctx.after_ok(f"1.{fn}-produced-before-seal", prod, [seal])
             ctx.after_ok(f"1.{fn}-sealed-before-commit", seal, [commit], detail="each block is sealed before it is committed")
             ctx.arg_origin(f"1.{fn}-commit-carries-seal", commit, 1, f"call:{SEAL}", depth=3,
@@ -65,8 +67,8 @@ def check(ctx):
                 ctx.after_ok(f"1.{fn}-{fld}-after-commit-ok", commit, [bb for bb, _ in ws],
                              detail="a failed production or commit does not advance the height / time")
             o = Origins(b, 1)
-            for fld, want in (("last_height", ["local:height", "upvar:height"] if fn == "produce_block" else "call:fuel_core_types::blockchain::header::BlockHeader::height"),
-                              ("last_timestamp", ["local:block_time", "upvar:block_time"] if fn == "produce_block" else "call:fuel_core_types::blockchain::header::BlockHeader::time")):
+            for fld, want in (("last_height", P_HEIGHT if fn == "produce_block" else "call:fuel_core_types::blockchain::header::BlockHeader::height"),
+                              ("last_timestamp", P_TIME if fn == "produce_block" else "call:fuel_core_types::blockchain::header::BlockHeader::time")):
                 for bb, s in field_writes(b, MT, fld):
                     at = o.atoms(s["rv"]["op"]) if s["rv"]["k"] == "use" else set()
                     ctx.add(f"1.{fn}-{fld}-value", "PROV", atom_match(at, want), f"{fld} becomes the produced block's value",
